@@ -19,6 +19,46 @@ from . import env
 KNOWN_FILE = os.path.join(env.VERIF, "known_findings.json")
 EVIDENCE_DIR = os.environ.get("GBV_EVIDENCE_DIR") or os.path.join(env.VERIF, "evidence")
 REPLAY_DIR = os.environ.get("GBV_REPLAY_DIR") or os.path.join(env.VERIF, "replays")
+COVERAGE = {}  # library file -> lines executed by the workers of this run (sys.monitoring, gbv.monitors.steps)
+
+
+def library_coverage(pid):
+    """per anchor file of the property: executable lines inside functions, lines the workload executed, ranges never executed"""
+    from .monitors import steps
+
+    files = []
+    try:
+        with open(os.path.join(env.VERIF, "properties.jsonl")) as fh:
+            for line in fh:
+                p = json.loads(line)
+                if p["id"] == pid:
+                    files = [f for f in p["anchors"]["files"] if f.endswith(".py")]
+    except OSError:
+        pass
+    out = {}
+    for f in files:
+        path = os.path.join(env.REPO, f)
+        try:
+            ex = steps.executable_lines(path)
+        except (OSError, SyntaxError):
+            continue
+        hit = COVERAGE.get(f, set()) & ex
+        order = sorted(ex)
+        pos = {ln: k for k, ln in enumerate(order)}
+        missed = sorted(ex - hit)
+        ranges, start, prev = [], None, None
+        for ln in missed:
+            if start is None:
+                start = prev = ln
+            elif pos[ln] == pos[prev] + 1:  # no executed line in between
+                prev = ln
+            else:
+                ranges.append(f"{start}-{prev}" if prev > start else f"{start}")
+                start = prev = ln
+        if start is not None:
+            ranges.append(f"{start}-{prev}" if prev > start else f"{start}")
+        out[f] = {"executable_lines_in_functions": len(ex), "executed": len(hit), "never_executed": ranges[:60]}
+    return out
 
 
 def load_check(pid):
@@ -74,6 +114,9 @@ def _read_results(path):
                     continue
                 if "start" in rec:
                     started[rec["start"]] = True
+                elif "coverage" in rec:
+                    for fn, lines in rec["coverage"].items():
+                        COVERAGE.setdefault(fn, set()).update(lines)
                 else:
                     done[rec["i"]] = rec
     except FileNotFoundError:
@@ -250,6 +293,7 @@ def run_check(pid, tier, seed, jobs=None):
         "repo": repo_state(),
         "verdict": "violated" if unknown else ("inconclusive" if inconc else "held-on-observed"),
     }
+    coverage["library_lines_reached"] = library_coverage(pid)
     if getattr(mod, "EXHAUSTIVE", False):
         coverage["exhaustive"] = True
     coverage.update(extra)
